@@ -7,7 +7,7 @@ from lib import vlib
 from lib.vlib import Check, tlc, vh_json_lines, validate_trace
 
 DEVS = ["ShortTtl", "NonAtomicSet", "TryLock", "NoType", "NoFresh"]
-MSG_DEVS = ["NoEcho", "NoRespType", "NoRespFresh", "NoUdpType", "NoUdpFresh", "WideVMess", "NoRespByte"]
+MSG_DEVS = ["NoEcho", "NoRespType", "NoRespFresh", "NoUdpType", "NoUdpFresh", "WideVMess", "NoRespByte", "WrapAbs"]
 
 
 def model(c, tier):
@@ -44,7 +44,7 @@ def judge(c, rows, what):
             c.violation("%s: real code cannot follow the model's schedule: %s" % (what, res["diverged"]), o)
         elif got != exp:
             k = sc.get("kind", sc.get("k"))
-            desc = {"k": k, "dts": sc.get("dts"), "typ": sc.get("typ"), "echo": sc.get("echo"), "auth": sc.get("auth"),
+            desc = {"k": k, "dts": sc.get("dts"), "ext": sc.get("ext"), "typ": sc.get("typ"), "echo": sc.get("echo"), "auth": sc.get("auth"),
                     "times": sc.get("times")}
             c.violation("%s: model expects %s, real code gives %s for %s (%s)" %
                         (what, exp, got, json.dumps(desc), res.get("cipher", res.get("security", ""))), o)
